@@ -1,0 +1,16 @@
+//go:build verif
+// +build verif
+
+package gocql
+
+// VerifHook, when set, is called at the yield points of the driver with the
+// name of the point, the connection (may be nil) and the stream id (0 if none).
+// It exists only in builds with the "verif" tag and is used by the
+// deterministic simulator to park a goroutine at a chosen point.
+var VerifHook func(point string, c *Conn, stream int)
+
+func verifYield(point string, c *Conn, stream int) {
+	if h := VerifHook; h != nil {
+		h(point, c, stream)
+	}
+}
